@@ -38,7 +38,17 @@ RULE = (
     "a changed payload is new field values, another variant of the same PDU class or another class / data type) carried "
     "one after the other by the same Burst object.  batch: 2-4 seeded data / voice bursts (40 % all of one variant, else "
     "mixed classes) that are all built and parsed before any is serialised, with 0-2 arbitrary 'noise' bursts parsed in "
-    "between, then serialised in a shuffled order and its reverse.  Distinct by hash of the complete case.  Non-trivial: data bursts "
+    "between, then serialised in a shuffled order and its reverse; in half of the one-variant batches items 2..n are near twins of item 1 "
+    "(one field, only the colour code, only the sync changed, or nothing).  same_payload: a case is one data burst, optional hinted PDUs and a "
+    "walk; the oracle collects the bursts of OTHER data types that have, by the references, the same 196 on-air payload bits (every 96-bit "
+    "BPTC payload is an unconfirmed rate 1/2 block; bits 96..99 zero - by chance, or constructed for unconfirmed rate 1/2 and 3/4 blocks - "
+    "make it an unconfirmed rate 1 block; a rate 1 block laid over a BPTC / trellis codeword) and walks: judged steps (one of these bursts, "
+    "same or another colour code / sync, every clause of data_grid) and stimulus steps (the payload under any of the 16 data types, around "
+    "any SYNC / an EMB, as any burst type, through from_bytes / from_bits / the constructor / from_mmdvm / from_hytera_ipsc, optionally with "
+    "bit errors) in five orders (stimulus first, judged first, alternating, all 16 types then judged, judged - all 16 types - judged).  "
+    "voice_walk: 2-4 voice bursts that share vocoder bits or centre (near twins) judged in both orders with such stimulus steps in between.  "
+    "The framework's preludes (every 8th case of every sub-check is judged again after them) run the same stimulus on the case's own 264 bits "
+    "plus the FEC / slot type / SYNC / EMB / PDU entry points on its parts and their refused variants (prelude_for).  Distinct by hash of the complete case.  Non-trivial: data bursts "
     "whose PDU bits are not all zero; voice bursts whose 216 vocoder bits are neither all zero nor all one; reuse cases whose two states serialise to different bytes."
 )
 ASSUMPTIONS = [
@@ -79,6 +89,9 @@ ASSUMPTIONS = [
     "bytearray through from_bytes) and overwrites them afterwards; every later serialisation must give the burst's own bits. "
     "Holds on /repo because every attribute the serialisers read is a slice copy; Burst.full_bits itself IS the caller's "
     "object (stored by reference) and is therefore never read by this check",
+    "same_payload / voice_walk: stimulus steps are not judged - a payload under a data type of another FEC class is in general not a "
+    "burst the library serialises; only bursts that ARE (by the independent references: same payload bits, valid PDU length, the library "
+    "re-assembles them from generated fields) are judged, each with the unchanged clauses of data_grid / oracle_voice",
     "GPS coordinates are multiples of the wire resolution; other floats cannot survive a 25/24-bit field and are not "
     "'in-range field values'",
 ]
@@ -438,6 +451,430 @@ def oracle_reuse(case):
         raise Fail("parsed_bursts_independent", "first parsed burst changed after a second one was parsed", bytes1.hex(), klass="first")
 
 
+# ---------------------------------------------------------------------------------------------- the same on-air payload under every data type (round 7)
+#
+# The 196 on-air payload bits of a burst say nothing about their FEC class: the slot type's data type selects BPTC(196,96)
+# (ten data types), the rate 3/4 trellis (8), the rate 1 layout (10) or no decoder at all (reserved 12..15, refused).  A
+# result that is remembered per payload bits - not per (payload bits, data type) - is only wrong once the SAME bits came by
+# under another data type.  same_payload keeps one payload P and walks it through data types, burst types, centres and
+# entry points in one process, in both orders, and judges every burst of the walk that the library can serialise itself.
+
+_KIND_FEC = {"rate34": "trellis", "rate1": "rate1"}  # every other kind: BPTC(196,96)
+BURST_TYPE_NAMES = ["DataAndControl", "Vocoder", "Undefined"]
+_MMDVM_HEAD = bytes.fromhex("444d5244192807220000090028072290864b516b")  # DMRD header of a captured frame (20 octets; octet 15 = flags)
+_IPSC_TEMPLATES = [  # captured IPSC frames (voice frame C, terminator with LC, sync); octets 26..59 carry the 16-bit-swapped burst + pad
+    "5a5a5a5a0300000041000501020000002222999911110000100038d424a26d410436c0dda2f46165307000904607a54d4715ff8e3685dd23255501e3000001000900000022072800",
+    "5a5a5a5a8f00000043000501020000002222222255550000409c5e06ca0ac804e823d04aa04b9d1457ff5dd7dff52001600d7039003cc12d031c003cca0a01006f0000003c382300",
+    "5a5a5a5a0000000042000501020000002222eeee555533334000bd0000008000150000000800fd00230038003b0038003b00b41200447eb7ffffef0844400000fd0800003b382300",
+]
+
+
+def _fec_class_of_nibble(v: int) -> str:
+    return "trellis" if v == 8 else "rate1" if v == 10 else "reserved" if v >= 12 else "bptc"
+
+
+def _ref_payload(kind, pdu_bits: bitarray):
+    """196 reference on-air payload bits of a PDU of this kind, or None when the PDU does not have the length its class carries"""
+    cls = _KIND_FEC.get(kind, "bptc")
+    if len(pdu_bits) != {"trellis": 144, "rate1": 192, "bptc": 96}[cls]:
+        return None
+    if cls == "trellis":
+        return _ba(trellis34_ref.encode(pdu_bits.tolist()))
+    if cls == "rate1":
+        return pdu_bits[:96] + bitarray("0000") + pdu_bits[96:]
+    return _ba(bptc_ref.bptc196_encode(pdu_bits.tolist()))
+
+
+def _centre_bits(name: str, w: int = 0) -> bitarray:
+    """48 centre bits: a data / voice SYNC word of table 9.2 by name, or 'emb': a valid EMB word around 32 arbitrary bits"""
+    if name in DATA_SYNCS:
+        return _ba(gf2.int_to_bits(DATA_SYNCS[name], 48))
+    if name in VOICE_SYNCS:
+        return _ba(gf2.int_to_bits(VOICE_SYNCS[name], 48))
+    emb = _ba(gf2.ref_encode("qr_16_7_6", gf2.int_to_bits(w % 128, 7)))
+    return emb[:8] + _ba(gf2.int_to_bits((w * 2654435761) % (1 << 32), 32)) + emb[8:]
+
+
+def _layout264(payload: bitarray, cc: int, nibble: int, centre: bitarray) -> bitarray:
+    slot = _ba(gf2.ref_encode("golay_20_8_7", gf2.int_to_bits(cc, 4) + gf2.int_to_bits(nibble, 4)))
+    out = payload[:98] + slot[:10] + centre + slot[10:] + payload[98:]
+    assert len(out) == 264
+    return out
+
+
+def _swap16(b: bytes) -> bytes:
+    return bytes(b[i ^ 1] for i in range(len(b)))
+
+
+def _parse_ignoring_everything(bits264: bitarray, bt_name: str = "DataAndControl", via: str = "from_bytes", w: int = 0):
+    """stimulus: one parse of 264 bits through one of the library's entry points, then whatever serialises / prints the result.
+    Arbitrary bits under an arbitrary data type may be refused in any way; only the after-effects matter."""
+    import contextlib
+    import io
+
+    Burst, BurstTypes, DataTypes, SyncPatterns, SlotType = _lib()
+    raw = bits264.tobytes()
+    try:
+        with contextlib.redirect_stdout(io.StringIO()):
+            bt = BurstTypes[bt_name]
+            if via == "from_bits":
+                x = Burst.from_bits(bits264.copy(), bt)
+            elif via == "constructor":
+                x = Burst(full_bits=bits264.copy(), burst_type=bt)
+            elif via == "mmdvm":
+                from okdmr.kaitai.homebrew.mmdvm2020 import Mmdvm2020
+
+                flags = ((w & 3) << 6) | ((2 if bt_name == "DataAndControl" else (w >> 2) & 1) << 4) | ((w >> 3) & 15)
+                pkt = _MMDVM_HEAD[:15] + bytes([flags]) + _MMDVM_HEAD[16:] + raw + b"\x00\x00"
+                x = Burst.from_mmdvm(Mmdvm2020.from_bytes(pkt).command_data)
+            elif via == "ipsc":
+                t = bytes.fromhex(_IPSC_TEMPLATES[{"Vocoder": 0, "DataAndControl": 1, "Undefined": 2}[bt_name]])
+                x = Burst.from_hytera_ipsc(t[:26] + _swap16(raw + b"\x00") + t[60:])
+            else:
+                x = Burst.from_bytes(raw, bt)
+            for fn in (x.as_bytes, x.as_bits, lambda: repr(x), lambda: x.debug(printout=False), lambda: x.data_type, lambda: x.colour_code, lambda: x.target_radio_id, x.interleave):
+                try:
+                    fn()
+                except Exception:
+                    pass
+            return x
+    except Exception:
+        return None
+
+
+def _twins_of(kind, variant, pdu_bits: bitarray, payload: bitarray):
+    """(kind, variant, fields) of bursts of ANOTHER data type that the library serialises itself and whose 196 on-air payload
+    bits are, by the references, the same: any 96-bit BPTC payload is also an unconfirmed rate 1/2 block; a payload whose bits
+    96..99 are zero is also an unconfirmed rate 1 block; a rate 1 payload that is a BPTC codeword is also a rate 1/2 block."""
+    cls = _KIND_FEC.get(kind, "bptc")
+    out = []
+    if cls == "bptc" and kind != "rate12":
+        out.append(("rate12", "Unconfirmed", {"data": pdu_bits.tobytes().hex()}))
+    if cls != "rate1" and not payload[96:100].any():
+        out.append(("rate1", "Unconfirmed", {"data": (payload[:96] + payload[100:]).tobytes().hex()}))
+    if cls == "rate1":
+        pl = payload.tolist()
+        info = [pl[p] for p in bptc_ref.bptc196_info_positions()]
+        if bptc_ref.bptc196_encode(info) == pl:
+            out.append(("rate12", "Unconfirmed", {"data": _ba(info).tobytes().hex()}))
+    return out
+
+
+def oracle_same_payload(case):
+    """case = {a: data case, hints: [{kind, variant, f}], seq: [step, ...]}.
+    Items: a, the twins derived from a's PDU bits (see _twins_of) and those hinted PDUs whose reference payload equals a's
+    (hints are built by the driver from the references: a rate 1 block laid over a BPTC / trellis codeword whose bits 96..99
+    are zero, and the reverse).  All items have the same 196 on-air payload bits and different data types.
+    Steps:  {j, cc, sync}  the j-th item (modulo their number) is assembled with that colour code and sync and judged with
+                           every clause of data_grid (layout reference, parse, data type, colour code, fields, re-assembly);
+            {n: {dt, cc, centre, bt, via, flip, w}}  stimulus: the payload (optionally with bit errors) under data type nibble dt
+                           (all 16, reserved ones included) around a data / voice SYNC or an EMB, parsed as burst type bt through
+                           from_bytes / from_bits / the constructor / from_mmdvm / from_hytera_ipsc, serialised, printed; ignored.
+    Every burst of the judged steps stays alive; at the end each is serialised again and its parsed fields compared again."""
+    Burst, BurstTypes, DataTypes, SyncPatterns, SlotType = _lib()
+    a = case["a"]
+    st, pdu_a = call(G.build, a["kind"], a["variant"], a["f"])
+    st, pb = call(pdu_a.as_bits)
+    pdu_bits = _ba(pb)
+    payload = _ref_payload(a["kind"], pdu_bits)
+    if payload is None:
+        raise Fail("pdu_bit_length", len(pdu_bits), "96 / 144 / 192 according to the kind", klass=a["kind"])
+    items = [(a["kind"], a["variant"], a["f"])]
+    for h in [{"kind": k, "variant": v, "f": f} for k, v, f in _twins_of(a["kind"], a["variant"], pdu_bits, payload)] + list(case.get("hints", [])):
+        st, hp = call(G.build, h["kind"], h["variant"], h["f"])
+        st, hb = call(hp.as_bits)
+        if _ref_payload(h["kind"], _ba(hb)) == payload and G.DATA_TYPE_OF_KIND[h["kind"]] not in {G.DATA_TYPE_OF_KIND[k] for k, _v, _f in items}:
+            items.append((h["kind"], h["variant"], h["f"]))
+    _SIDE["nonzero"] = pdu_bits.any()
+    _SIDE["items"] = sorted(G.DATA_TYPE_OF_KIND[k] for k, _v, _f in items)
+
+    kept = []
+    for step in case["seq"]:
+        if "n" in step:
+            n = step["n"]
+            bits = payload.copy()
+            for p in n.get("flip", []):
+                bits.invert(p % 196)
+            _parse_ignoring_everything(_layout264(bits, n["cc"], n["dt"], _centre_bits(n["centre"], n.get("w", 0))), n.get("bt", "DataAndControl"), n.get("via", "from_bytes"), n.get("w", 0))
+            continue
+        kind, variant, f = items[step["j"] % len(items)]
+        cc, sync = step["cc"], step["sync"]
+        st, pdu = call(G.build, kind, variant, f)
+        st, b = call(_new_burst, pdu, cc, DataTypes[G.DATA_TYPE_OF_KIND[kind]], SyncPatterns[sync])
+        raw = _as_33_bytes(b)
+        try:
+            p = _check_serialised(kind, variant, f, cc, sync, pdu, raw, containers=False)
+        except Fail as e:
+            e.klass = (e.klass + "|" if e.klass else "") + "same_payload:" + kind
+            raise
+        kept.append((kind, variant, f, pdu, raw, b, p))
+    for i, (kind, variant, f, pdu, raw, b, p) in enumerate(kept):
+        if _as_33_bytes(p) != raw:
+            raise Fail("retained_burst_unchanged_by_later_parses", {"judged_step": i, "object": "parsed", **_diffpos(_from_bytes(_as_33_bytes(p)), _from_bytes(raw))}, "its own bytes", klass="parsed:" + kind)
+        if _as_33_bytes(b) != raw:
+            raise Fail("retained_burst_unchanged_by_later_parses", {"judged_step": i, "object": "assembled"}, "its own bytes", klass="assembled:" + kind)
+        pp = p.data
+        if kind in _RATE_KINDS and pp is not None:
+            st, pp = call(pp.convert, G.rate_type(kind, variant))
+        d, _n = G.compare_payload_fields(kind, variant, f, pdu, pp)
+        if d:
+            raise Fail("retained_burst_unchanged_by_later_parses", d[:6], "the fields it was parsed with", klass="fields:" + kind)
+
+
+def _zero_gap_codeword(rng, cls: str):
+    """(data bits, 196 on-air bits) of a random BPTC(196,96) / trellis codeword whose on-air bits 96..99 are zero (references only)"""
+    k = 96 if cls == "bptc" else 144
+    while True:
+        data = [rng.getrandbits(1) for _ in range(k)]
+        if cls == "trellis":  # the gap is constellation point 45 = +1/+1: state 2..5 and the one tribit that leads there
+            s = rng.choice([2, 3, 4, 5])
+            t = [t for t in range(8) if trellis34_ref.transition(s, t) == 11][0]
+            data[132:138] = gf2.int_to_bits(s, 3) + gf2.int_to_bits(t, 3)
+        cw = bptc_ref.bptc196_encode(data) if cls == "bptc" else trellis34_ref.encode(data)
+        if not any(cw[96:100]):
+            return data, cw
+
+
+def _same_payload_case(rng, kind, variant, shape):
+    """shape: 'plain' (seeded fields of the variant; a rate 1 twin exists when bits 96..99 happen to be zero), 'bptc_zero_gap' /
+    'trellis_zero_gap' (an unconfirmed rate 1/2 or 3/4 block laid out so that bits 96..99 are zero: the rate 1 twin always
+    exists), 'rate1_over_bptc' / 'rate1_over_trellis' (a = the rate 1 block, the coded block is the hint)."""
+    hints = []
+    if shape == "plain":
+        a = {"kind": kind, "variant": variant, "f": G.rng_fields(rng, kind, variant)}
+    else:
+        cls = "bptc" if "bptc" in shape else "trellis"
+        data, cw = _zero_gap_codeword(rng, cls)
+        coded = {"kind": "rate12" if cls == "bptc" else "rate34", "variant": "Unconfirmed", "f": {"data": _ba(data).tobytes().hex()}}
+        r1 = {"kind": "rate1", "variant": "Unconfirmed", "f": {"data": _ba(cw[:96] + cw[100:]).tobytes().hex()}}
+        if shape.startswith("rate1_over"):
+            a, hints = r1, [coded]
+        else:
+            a, hints = coded, [r1]
+    a["cc"], a["sync"] = rng.randrange(16), rng.choice(SYNC_NAMES)
+
+    def judged(j):
+        same = rng.random() < 0.6  # the very same 264 bits but for the data type, or also another colour code / sync
+        return {"j": j, "cc": a["cc"] if same else rng.randrange(16), "sync": a["sync"] if same else rng.choice(SYNC_NAMES)}
+
+    def noise():
+        r = rng.random()
+        n = {"dt": rng.randrange(16), "cc": a["cc"] if rng.random() < 0.7 else rng.randrange(16), "centre": a["sync"], "w": rng.randrange(1 << 16)}
+        if r < 0.25:
+            n["centre"] = rng.choice(SYNC_NAMES + VOICE_SYNC_NAMES + ["emb"])
+        if rng.random() < 0.3:
+            n["bt"] = rng.choice(BURST_TYPE_NAMES)
+        if rng.random() < 0.4:
+            n["via"] = rng.choice(["from_bits", "constructor", "mmdvm", "ipsc"])
+        if rng.random() < 0.15:
+            n["flip"] = [rng.randrange(196) for _ in range(rng.choice([1, 1, 2, 3]))]
+        return {"n": n}
+
+    pattern = rng.choice(["noise_first", "judged_first", "alternate", "all_types_then_judged", "judged_all_types_judged"])
+    n_items = 3  # indices are taken modulo the number of items the oracle finds
+    seq = []
+    if pattern == "noise_first":
+        seq = [noise() for _ in range(rng.randrange(2, 6))] + [judged(j) for j in rng.sample(range(n_items), n_items)]
+    elif pattern == "judged_first":
+        order = rng.sample(range(n_items), n_items)
+        seq = [judged(j) for j in order] + [noise() for _ in range(rng.randrange(1, 4))] + [judged(j) for j in order[::-1]]
+    elif pattern == "alternate":
+        for j in rng.sample(range(n_items), n_items) * 2:
+            seq += [judged(j)] + ([noise()] if rng.random() < 0.5 else [])
+    else:
+        every = [{"n": {"dt": dt, "cc": a["cc"], "centre": a["sync"], "w": rng.randrange(1 << 16)}} for dt in rng.sample(range(16), 16)]
+        if pattern == "judged_all_types_judged":
+            seq = [judged(0)] + every + [judged(j) for j in range(n_items)]
+        else:
+            seq = every + [judged(j) for j in rng.sample(range(n_items), n_items)]
+    return {"a": a, "hints": hints, "seq": seq, "pattern": pattern}
+
+
+def drv_same_payload(ctx: Ctx, sub: SubCheck):
+    _preimport()
+    reps = ctx.pick(6, 32)
+    cells = [(kind, variant, "plain", r) for (kind, variant) in G.VARIANTS for r in range(reps)]
+    cells += [("-", "-", shape, r) for shape in ("bptc_zero_gap", "trellis_zero_gap", "rate1_over_bptc", "rate1_over_trellis") for r in range(ctx.pick(60, 500))]
+
+    def work(chunk, t: Tally):
+        for kind, variant, shape, r in chunk:
+            c = _same_payload_case(ctx.rng("same_payload", kind, variant, shape, r), kind, variant, shape)
+            _SIDE.clear()
+            ctx.run_case(sub.name, oracle_same_payload, c, t)
+            t.case(sub.name, key=None, nontrivial=False, cls=f"{shape}:{c['pattern']}")
+            t.cls(sub.name, "data_types_sharing_the_payload:" + "+".join(_SIDE.get("items", ["?"])))
+            if _SIDE.get("nonzero", True):
+                t.nt_hashes.add(digest([sub.name, c]))
+            if r == 0:
+                t.sample(sub.name, c)
+
+    ctx.shards(work, [cells[i::64] for i in range(64)])
+
+
+# ---------------------------------------------------------------------------------------------- sibling calls for preludes (round 7)
+
+
+def _sib_same_bits(a):
+    """a = {bits: hex33, w}: the same 264 bits under all 16 data types (slot type replaced by the reference codeword, the
+    colour code kept), under every burst type, through every entry point; and the same payload around other centres"""
+    bits = _from_bytes(bytes.fromhex(a["bits"]))
+    w = int(a.get("w", 0))
+    slot = bits[98:108] + bits[156:166]
+    cc = gf2.bits_to_int(slot[:4].tolist())
+    payload, centre = bits[:98] + bits[166:], bits[108:156]
+    how = a.get("how", "types")
+    if how == "types":  # one data type of each FEC class (BPTC, trellis, rate 1, refused) first, then four more
+        for nib in [7, 8, 10, 12 + w % 4] + [(w // 4 + 5 * i) % 16 for i in range(4)]:
+            _parse_ignoring_everything(_layout264(payload, cc, nib, centre))
+    elif how == "burst_types":
+        for i, bt in enumerate(BURST_TYPE_NAMES):
+            _parse_ignoring_everything(bits, bt, ("from_bytes", "from_bits", "constructor")[(w + i) % 3], w)
+    elif how == "entry_points":
+        for i, bt in enumerate(BURST_TYPE_NAMES):
+            _parse_ignoring_everything(bits, bt, ("mmdvm", "ipsc")[(w + i) % 2], w)
+            _parse_ignoring_everything(bits, bt, ("mmdvm", "ipsc")[(w + i + 1) % 2], w >> 3)
+    elif how == "centres":
+        names = SYNC_NAMES + VOICE_SYNC_NAMES + ["emb"]
+        for i in range(4):
+            _parse_ignoring_everything(bits[:108] + _centre_bits(names[(w + 2 * i) % 9], w) + bits[156:], ("DataAndControl", "Vocoder")[(w >> 4) + i & 1])
+    elif how == "bit_errors":
+        for k in range(4):
+            x = bits.copy()
+            for j in range(1 + k % 3):
+                x.invert((w * 31 + k * 67 + j * 101) % 264)
+            _parse_ignoring_everything(x, BURST_TYPE_NAMES[k % 2])
+    elif how == "refused":
+        Burst, BurstTypes, DataTypes, SyncPatterns, SlotType = _lib()
+        for fn in (lambda: Burst.from_bytes(bits.tobytes()[:32]), lambda: Burst.from_bits(bits[:263], BurstTypes.DataAndControl), lambda: Burst.from_bytes(bits.tobytes() + b"\x00"),
+                   lambda: Burst.from_bits(None, BurstTypes.Vocoder), lambda: Burst.from_bytes(bits.to01()), lambda: Burst(full_bits=bits.copy(), burst_type=None),
+                   lambda: Burst.deinterleave(payload, DataTypes.Reserved), lambda: Burst.deinterleave(payload[:195], DataTypes.CSBK), lambda: Burst.deinterleave(payload, None)):
+            try:
+                fn()
+            except Exception:
+                pass
+
+
+def _sib_fec(a):
+    """a = {bits: hex33, w}: the FEC entry points the burst layer calls, applied directly to the burst's 196 payload bits (as
+    they are, with bit errors, in refused lengths) and to its slot type / centre"""
+    from okdmr.dmrlib.etsi.fec.bptc_196_96 import BPTC19696
+    from okdmr.dmrlib.etsi.fec.trellis import Trellis34
+    from okdmr.dmrlib.etsi.layer2.pdu.embedded_signalling import EmbeddedSignalling
+
+    Burst, BurstTypes, DataTypes, SyncPatterns, SlotType = _lib()
+    bits = _from_bytes(bytes.fromhex(a["bits"]))
+    w = int(a.get("w", 0))
+    payload, centre, slot = bits[:98] + bits[166:], bits[108:156], bits[98:108] + bits[156:166]
+    noisy = payload.copy()
+    for j in range(1 + w % 3):
+        noisy.invert((w * 29 + j * 53) % 196)
+    how = a.get("how", "bptc")
+    calls = []
+    if how == "bptc":
+        calls = [lambda: BPTC19696.deinterleave_data_bits(payload.copy()), lambda: BPTC19696.deinterleave_data_bits(payload.copy(), False), lambda: BPTC19696.deinterleave_all_bits(payload.copy()),
+                 lambda: BPTC19696.repair_if_necessary(noisy.copy()), lambda: BPTC19696.deinterleave_data_bits(noisy.copy()), lambda: BPTC19696.encode(payload[:96]),
+                 lambda: BPTC19696.encode(BPTC19696.deinterleave_data_bits(payload.copy())), lambda: BPTC19696.deinterleave_data_bits(payload[:195]), lambda: BPTC19696.encode(payload[:95]),
+                 lambda: BPTC19696.repair_if_necessary(payload[:100]), lambda: BPTC19696.deinterleave_all_bits(None)]
+    elif how == "trellis":
+        calls = [lambda: Trellis34.decode(payload.copy()), lambda: Trellis34.decode(payload.copy(), as_bytes=True), lambda: Trellis34.encode(payload[:144]), lambda: Trellis34.encode(payload.tobytes()[:18]),
+                 lambda: Trellis34.decode(Trellis34.encode(payload[:144])), lambda: Trellis34.decode(noisy.copy()), lambda: Trellis34.decode(payload[:195]), lambda: Trellis34.encode(payload[:143]),
+                 lambda: Trellis34.encode(~payload[:144]), lambda: Trellis34.encode(None)]
+    elif how == "deinterleave":
+        order = sorted(DataTypes, key=lambda d: (d.value * 7 + w) % 16)
+        calls = [(lambda d=d: Burst.deinterleave(payload.copy(), d)) for d in order]
+    elif how == "slot":
+        s2 = slot.copy()
+        for j in range(w % 5):
+            s2.invert((w * 7 + j * 11) % 20)
+        calls = [lambda: SlotType.from_bits(slot.copy()), lambda: repr(SlotType.from_bits(s2)), lambda: SlotType.from_bits(s2).as_bits(), lambda: SlotType(colour_code=w % 16, data_type=(w >> 4) % 16),
+                 lambda: SlotType(colour_code=w % 16, data_type=DataTypes((w >> 4) % 13)).as_bits(), lambda: SlotType(colour_code=16, data_type=3), lambda: SlotType(colour_code=1, data_type=16),
+                 lambda: SlotType(colour_code=1, data_type=3, parity=4096), lambda: SlotType(colour_code=w % 16, data_type=3, parity=1 + w % 4095).as_bits(), lambda: SlotType.from_bits(slot[:19]), lambda: DataTypes(17)]
+    elif how == "centre":
+        c2 = centre.copy()
+        for j in range(w % 4):
+            c2.invert((w * 5 + j * 17) % 48)
+        emb = centre[:8] + centre[40:]
+        e2 = emb.copy()
+        for j in range(w % 4):
+            e2.invert((w * 3 + j * 7) % 16)
+        calls = [lambda: SyncPatterns.resolve_bytes(centre.tobytes()), lambda: SyncPatterns.resolve_bytes(c2.tobytes()), lambda: SyncPatterns.from_bits(c2.copy()), lambda: SyncPatterns.resolve_bytes(centre.tobytes()[:5]),
+                 lambda: SyncPatterns.from_bits(centre[:47]), lambda: SyncPatterns(w), lambda: EmbeddedSignalling.from_bits(emb.copy()), lambda: repr(EmbeddedSignalling.from_bits(e2)),
+                 lambda: EmbeddedSignalling.from_bits(e2).as_bits(), lambda: EmbeddedSignalling.from_bits(emb[:15]), lambda: EmbeddedSignalling(colour_code=16, preemption_and_power_control_indicator=0, link_control_start_stop=0)]
+    for fn in calls:
+        try:
+            fn()
+        except Exception:
+            pass
+
+
+def _sib_pdu(a):
+    """a = {bits: hex33, w}: every payload PDU class parses the FEC-decoded bits of every FEC class of this payload (the PDU the
+    data type did not select), serialises and prints them"""
+    import importlib
+
+    bits = _from_bytes(bytes.fromhex(a["bits"]))
+    payload = bits[:98] + bits[166:]
+    pl = payload.tolist()
+    info96 = _ba([pl[p] for p in bptc_ref.bptc196_info_positions()])
+    variants = [info96, payload[:96] + payload[100:], payload[:144]]
+    for mod, cls in (("csbk", "CSBK"), ("data_header", "DataHeader"), ("pi_header", "PIHeader"), ("full_link_control", "FullLinkControl"), ("rate12_data", "Rate12Data"), ("rate34_data", "Rate34Data"), ("rate1_data", "Rate1Data")):
+        K = getattr(importlib.import_module("okdmr.dmrlib.etsi.layer2.pdu." + mod), cls)
+        for v in variants:
+            try:
+                x = K.from_bits(v.copy())
+                x.as_bits()
+                repr(x)
+            except Exception:
+                pass
+
+
+_SIB_C01 = {"same_bits": (_sib_same_bits, ["types", "burst_types", "entry_points", "centres", "bit_errors", "refused"]), "fec": (_sib_fec, ["bptc", "trellis", "deinterleave", "slot", "centre"]), "pdu": (_sib_pdu, ["from_bits"])}
+
+
+def _op_sibling(a):
+    import contextlib
+    import io
+
+    fn, hows = _SIB_C01[a["fam"]]
+    if a.get("how", hows[0]) in hows:
+        with contextlib.redirect_stdout(io.StringIO()):
+            fn(a)
+
+
+PRELUDE_OPS = {"sibling": _op_sibling}
+
+
+def _bits_of_any_case(sub, case):
+    """264 bits (hex) that the case is about, computed with the references where possible: voice cases by construction, data cases
+    from the PDU's own bits (library PDU codec, reference FEC / slot type / SYNC)"""
+    c = case
+    if "items" in case:  # batch, voice_walk
+        c = case["items"][0]
+    elif "a" in case:  # same_payload
+        c = case["a"]
+    if "center" in c:
+        return _voice_bits_of(c).tobytes().hex()
+    pdu = G.build(c["kind"], c["variant"], c["f"])
+    payload = _ref_payload(c["kind"], _ba(pdu.as_bits()))
+    if payload is None:
+        return None
+    return _layout264(payload, c["cc"], DT_VALUES[G.DATA_TYPE_OF_KIND[c["kind"]]], _centre_bits(c["sync"])).tobytes().hex()
+
+
+def prelude_for(sub, case, rng):
+    """sibling calls on the case's own 264 bits, run by the framework between two judgements of the case"""
+    try:
+        hx = _bits_of_any_case(sub, case)
+    except Exception:
+        hx = None
+    if hx is None:
+        return []
+    kinds = [(fam, how) for fam, (_fn, hows) in _SIB_C01.items() for how in hows]
+    picked = [("same_bits", "types")] + rng.sample(kinds, 2)
+    rng.shuffle(picked)
+    return [{"x": "sibling", "a": {"fam": fam, "how": how, "bits": hx, "w": rng.randrange(1 << 16)}} for fam, how in picked]
+
+
 def _voice_bits_of(case):
     """264 bits of a voice case (same construction as oracle_voice)"""
     voice = _ba(gf2.int_to_bits(int(case["voice"], 16), 216))
@@ -574,9 +1011,25 @@ def _batch_case(rng):
     same_variant = rng.random() < 0.4
     voice_only = (not same_variant) and rng.random() < 0.25  # a superframe's worth of voice bursts through one buffer
     base = rng.choice(G.VARIANTS)
+    near_twins = same_variant and rng.random() < 0.5  # items 2..n equal item 1 but for ONE thing (one field, the colour code, the sync) or nothing
     items = []
     for _ in range(n):
         r = rng.random()
+        if near_twins and items:
+            tw = {"kind": items[0]["kind"], "variant": items[0]["variant"], "f": dict(items[0]["f"]), "cc": items[0]["cc"], "sync": items[0]["sync"]}
+            what = rng.choice(["field", "field", "field", "cc", "sync", "nothing"])
+            if what == "field":
+                other = G.rng_fields(rng, *base)
+                names = [k for k in other if k != "_excluded" and other[k] != tw["f"].get(k)]
+                if names:
+                    k = rng.choice(names)
+                    tw["f"][k] = other[k]
+            elif what == "cc":
+                tw["cc"] = rng.choice([c for c in range(16) if c != tw["cc"]])
+            elif what == "sync":
+                tw["sync"] = rng.choice([x for x in SYNC_NAMES if x != tw["sync"]])
+            items.append(tw)
+            continue
         if (r < 0.25 and not same_variant) or voice_only:
             if rng.random() < 0.7:
                 m = rng.randrange(128)
@@ -621,6 +1074,8 @@ def drv_batch(ctx: Ctx, sub: SubCheck):
             kinds = sorted({G.expected_class_name(it["kind"]) if "kind" in it else "voice" for it in c["items"]})
             t.case(sub.name, key=None, nontrivial=False, cls="items=%d:noise=%d" % (len(c["items"]), len(c["noise"])))
             t.cls(sub.name, "one_class" if len(kinds) == 1 else "mixed_classes")
+            if len(c["items"]) > 1 and all("kind" in it for it in c["items"]) and all(sum(1 for k in set(it["f"]) | set(c["items"][0]["f"]) if it["f"].get(k) != c["items"][0]["f"].get(k)) + (it["cc"] != c["items"][0]["cc"]) + (it["sync"] != c["items"][0]["sync"]) <= 1 and (it["kind"], it["variant"]) == (c["items"][0]["kind"], c["items"][0]["variant"]) for it in c["items"][1:]):
+                t.cls(sub.name, "near_twins_of_first_item")
             t.cls(sub.name, "parse_source:" + ("fresh" if c["buffer_modes"][0] == "fresh" else "reused_caller_buffer:after=%s" % c["buffer_after"]))
             if sum(1 for it in c["items"] if "kind" not in it) >= 2:
                 t.cls(sub.name, "two_or_more_voice_items")
@@ -871,6 +1326,137 @@ def oracle_voice(case):
                 raise Fail("embedded_bits_extracted", _ba(b.embedded_signalling_bits).to01(), embedded.to01())
 
 
+# ---------------------------------------------------------------------------------------------- voice walk (round 7)
+
+
+def _voice_twins(rng, base):
+    """voice bursts that share everything but one thing with `base`: the same 216 vocoder bits around every other kind of
+    centre, the same centre around vocoder bits that differ in one bit / only at the positions where a data burst carries its
+    slot type / only in the first or last octet, the same EMB word around other embedded bits, and an exact duplicate"""
+    out = []
+    v = int(base["voice"], 16)
+
+    def emb_centre(m=None, eb=None):
+        m = rng.randrange(128) if m is None else m
+        return {"center": "emb", "cc": m >> 3, "pi": (m >> 2) & 1, "lcss": m & 3, "emb_bits": ("%08x" % rng.getrandbits(32)) if eb is None else eb}
+
+    centre = {k: base[k] for k in base if k != "voice"}
+    for _ in range(rng.randrange(1, 4)):
+        r = rng.random()
+        if r < 0.3:  # same vocoder bits, another centre
+            c2 = {"center": "sync", "sync": rng.choice(VOICE_SYNC_NAMES)} if rng.random() < 0.4 else emb_centre()
+            out.append(dict(c2, voice=base["voice"]))
+        elif r < 0.45 and base["center"] == "emb":  # same EMB word, other embedded bits / same embedded bits, other EMB word
+            if rng.random() < 0.5:
+                out.append(dict(centre, emb_bits="%08x" % (int(base["emb_bits"], 16) ^ (1 << rng.randrange(32))), voice=base["voice"]))
+            else:
+                out.append(dict(emb_centre(eb=base["emb_bits"]), voice=base["voice"]))
+        elif r < 0.85:  # same centre, vocoder bits that differ a little
+            how = rng.choice(["one_bit", "slot_type_positions", "first_octet", "last_octet", "middle_bits"])
+            if how == "one_bit":
+                v2 = v ^ (1 << rng.randrange(216))
+            elif how == "slot_type_positions":  # burst bits 98..107 and 156..165 = vocoder bits 98..117
+                v2 = v ^ (rng.randrange(1, 1 << 20) << (216 - 118))
+            elif how == "first_octet":
+                v2 = v ^ (rng.randrange(1, 256) << 208)
+            elif how == "last_octet":
+                v2 = v ^ rng.randrange(1, 256)
+            else:
+                v2 = v ^ (rng.randrange(1, 1 << 16) << 100)
+            out.append(dict(centre, voice="%054x" % v2))
+        else:
+            out.append(dict(base))
+    return out
+
+
+def oracle_voice_walk(case):
+    """case = {items: [voice case, ...], seq: [{j} | {n: {j, bt, via, w, dt, flip}}]}.  {j}: item j is judged with every clause of
+    oracle_voice and one more parsed burst of it is kept alive.  {n}: stimulus - the 264 bits of item j (optionally with the
+    20 slot-type positions overwritten by a valid slot type of data type dt, or with bit errors) are parsed as burst type bt
+    through from_bytes / from_bits / the constructor / from_mmdvm / from_hytera_ipsc, serialised, printed; ignored.  At the
+    end every kept burst must still serialise to its own bits."""
+    from okdmr.dmrlib.etsi.layer2.burst import Burst
+    from okdmr.dmrlib.etsi.layer2.elements.burst_types import BurstTypes
+
+    items = case["items"]
+    kept = []
+    nonzero = False
+    for step in case["seq"]:
+        if "n" in step:
+            n = step["n"]
+            bits = _voice_bits_of(items[n["j"] % len(items)])
+            if n.get("dt") is not None:
+                slot = _ba(gf2.ref_encode("golay_20_8_7", gf2.int_to_bits(n.get("w", 0) % 16, 4) + gf2.int_to_bits(n["dt"], 4)))
+                bits[98:108], bits[156:166] = slot[:10], slot[10:]
+            for p in n.get("flip", []):
+                bits.invert(p % 264)
+            _parse_ignoring_everything(bits, n.get("bt", "Vocoder"), n.get("via", "from_bytes"), n.get("w", 0))
+            continue
+        it = items[step["j"] % len(items)]
+        oracle_voice(it)
+        nonzero = nonzero or _SIDE.get("nonzero", True)
+        bits = _voice_bits_of(it)
+        st, b = call(Burst.from_bytes, bits.tobytes(), BurstTypes.Vocoder)
+        kept.append((bits, b))
+    _SIDE["nonzero"] = nonzero
+    for i, (bits, b) in enumerate(kept):
+        st, out = call(b.as_bits)
+        if _ba(out) != bits:
+            raise Fail("retained_burst_unchanged_by_later_parses", {"judged_step": i, **_diffpos(_ba(out), bits)}, "its own bits", klass="voice")
+        if _ba(b.voice_bits) != bits[:108] + bits[156:]:
+            raise Fail("retained_burst_unchanged_by_later_parses", {"judged_step": i, "attribute": "voice_bits"}, "its own vocoder bits", klass="voice")
+
+
+def _voice_walk_case(rng):
+    if rng.random() < 0.7:
+        m = rng.randrange(128)
+        base = {"center": "emb", "cc": m >> 3, "pi": (m >> 2) & 1, "lcss": m & 3, "emb_bits": "%08x" % rng.getrandbits(32), "voice": _voice_payload(rng)}
+    else:
+        base = {"center": "sync", "sync": rng.choice(VOICE_SYNC_NAMES), "voice": _voice_payload(rng)}
+    items = [base] + _voice_twins(rng, base)
+
+    def noise():
+        n = {"j": rng.randrange(len(items)), "bt": rng.choice(BURST_TYPE_NAMES), "w": rng.randrange(1 << 16)}
+        if rng.random() < 0.5:
+            n["via"] = rng.choice(["from_bits", "constructor", "mmdvm", "ipsc"])
+        if rng.random() < 0.3:
+            n["dt"] = rng.randrange(16)
+        if rng.random() < 0.15:
+            n["flip"] = [rng.randrange(264) for _ in range(rng.choice([1, 2, 3]))]
+        return {"n": n}
+
+    order = list(range(len(items)))
+    rng.shuffle(order)
+    pattern = rng.choice(["noise_first", "judged_first", "alternate"])
+    if pattern == "noise_first":
+        seq = [noise() for _ in range(rng.randrange(2, 7))] + [{"j": j} for j in order]
+    elif pattern == "judged_first":
+        seq = [{"j": j} for j in order] + [noise() for _ in range(rng.randrange(1, 5))] + [{"j": j} for j in order[::-1]]
+    else:
+        seq = []
+        for j in order + order[::-1]:
+            seq += [{"j": j}] + ([noise()] if rng.random() < 0.6 else [])
+    return {"items": items, "seq": seq, "pattern": pattern}
+
+
+def drv_voice_walk(ctx: Ctx, sub: SubCheck):
+    _preimport()
+    n = ctx.pick(640, 6000)
+
+    def work(chunk, t: Tally):
+        for j in chunk:
+            c = _voice_walk_case(ctx.rng("voice_walk", j))
+            _SIDE.clear()
+            ctx.run_case(sub.name, oracle_voice_walk, c, t)
+            t.case(sub.name, key=None, nontrivial=False, cls="items=%d:%s" % (len(c["items"]), c["pattern"]))
+            if _SIDE.get("nonzero", True):
+                t.nt_hashes.add(digest([sub.name, c]))
+            if j < 3:
+                t.sample(sub.name, c)
+
+    ctx.shards(work, [list(range(n))[i::64] for i in range(64)])
+
+
 def _tally_voice(sub, c, t: Tally):
     cls = "sync:" + c["sync"] if c["center"] == "sync" else "emb"
     t.case(sub, key=None, nontrivial=False, cls=cls)
@@ -1117,10 +1703,12 @@ SUBCHECKS = [
     SubCheck("data_random", oracle_data, drv_data_random, "Hypothesis-drawn (variant, fields, colour code, sync): same oracle"),
     SubCheck("reuse", oracle_reuse, drv_reuse, "stale state on reused objects: one Burst (assembled or parsed) carries state 1, is serialised (as_bytes/as_bits/repr/debug), is re-targeted to state 2 (payload replaced or rewritten in place, slot type, sync) and back: every serialisation equals a freshly assembled burst"),
     SubCheck("batch", oracle_batch, drv_batch, "interleaved two-phase batches: 2-4 data / voice bursts are all built and parsed first (with arbitrary 'noise' bursts parsed in between), then serialised in another order, twice: every result equals the solo result"),
+    SubCheck("same_payload", oracle_same_payload, drv_same_payload, "one 196-bit on-air payload walked through data types / FEC classes in one process, both orders: the bursts of different data types that share it (any BPTC payload = a rate 1/2 block; bits 96..99 zero = a rate 1 block; a rate 1 block laid over a BPTC / trellis codeword) are each judged with data_grid's clauses, before and after the same bits were parsed under all 16 data types, other burst types, centres and entry points (from_bits, constructor, from_mmdvm, from_hytera_ipsc); every burst stays alive and is re-judged at the end"),
     SubCheck("voice_grid", oracle_voice, drv_voice_grid, "all 128 (cc, PI, LCSS) EMB codewords and the 4 voice syncs x random vocoder/embedded bits: parse-then-serialise is the identity"),
     SubCheck("voice_boundary", oracle_voice, drv_voice_boundary, "every EMB value x {all-zero, all-ones, alternating} vocoder bits x {all-zero, all-ones, alternating} embedded bits; every voice sync x the vocoder patterns (complete)"),
     SubCheck("voice_near_sync", oracle_voice, drv_voice_near_sync, "voice bursts whose valid-EMB centre is at minimal Hamming distance from a SYNC pattern: 10 SYNC words x 128 EMB codewords with the SYNC word's own middle bits as embedded bits, and 1-2 embedded bits flipped"),
     SubCheck("voice_sync_images", oracle_voice, drv_voice_sync_images, "voice bursts whose centre is (built around) a transformed image of a SYNC word: bit/byte/word reversal, in-octet swaps, rotations, complements; images that are themselves valid EMB centres are used as they are"),
+    SubCheck("voice_walk", oracle_voice_walk, drv_voice_walk, "voice bursts that share their vocoder bits or their centre (other SYNC / EMB word / embedded bits; vocoder bits differing in one bit, only at the slot-type positions, only in the first / last octet; exact duplicates) judged one after the other in one process, with the same 264 bits parsed in between / before as every burst type through every entry point (from_bits, constructor, from_mmdvm, from_hytera_ipsc), with a slot type of every data type written over the slot-type positions; every burst stays alive and is re-judged at the end"),
     SubCheck("voice_random", oracle_voice, drv_voice_random, "Hypothesis-drawn voice bursts (both centre kinds): same oracle"),
 ]
 PREDICATES = {}
